@@ -55,6 +55,20 @@ form('addassign-seq-operand-instrumented-first', { ops: ['+=', '+'] }, F => { co
 form('plus-fnexpr-default-param-operand', { ops: ['+'] }, F => `${F.f()} + w.cb${F.id()}(function (it, sep = ${F.s()} + ${F.f()}) { return sep + it })`)
 form('plus-method-default-param-operand', { ops: ['+'] }, F => `${F.f()} + ({ m(sep = \`\${${F.s()}}|\${${F.f()}}\`) { return sep } }).m()`)
 form('call-arg-after-fnexpr-default-param', { ops: ['concat', '+'] }, F => `w.id${F.id()}(${F.s()} + ${F.f()}, function (q = ${F.loc()}.trim()) { return q })`)
+form('nest-cond-in-plus', { ops: ['+'] }, F => `${F.f()} + (w.b${F.id()} ? ${F.s()} + ${F.f()} : ${F.s()})`)
+form('nest-logical-in-plus', { ops: ['+'] }, F => `${F.f()} + (w.b1 && ${F.s()} + ${F.f()}) + (w.n${F.id()} ?? ${F.s()} + ${F.f()})`)
+form('nest-array-in-plus', { ops: ['+', 'join'] }, F => `${F.f()} + [${F.s()} + ${F.f()}, ${F.s()}].join(${F.s()})`)
+form('nest-object-in-plus', { ops: ['+'] }, F => `${F.f()} + w.id${F.id()}({ k: ${F.s()} + ${F.f()} }).k`)
+form('nest-plaincall-arg-in-plus', { ops: ['+'] }, F => `${F.f()} + w.id${F.id()}(${F.s()} + ${F.f()}, \`\${${F.f()}}\`)`)
+form('nest-new-arg-in-plus', { ops: ['+'] }, F => `${F.f()} + new w.C${F.id()}(${F.s()} + ${F.f()}).s1`)
+form('nest-tagged-in-plus', { ops: ['+'] }, F => `${F.f()} + w.tag${F.id()}\`x\${${F.s()} + ${F.f()}}y\``)
+form('nest-classexpr-in-plus', { ops: ['+'] }, F => `${F.f()} + (class { static p = ${F.s()} + ${F.f()} }).p`)
+form('nest-switch-iife-in-plus', { ops: ['+'] }, F => `${F.f()} + (() => { switch (${F.s()} + ${F.f()}) { case ${F.s()} + ${F.f()}: return ${F.s()}; default: return ${F.s()} + ${F.f()} } })()`)
+form('nest-cond-in-call-arg', { ops: ['concat', '+'] }, F => `${F.f()}.concat(${F.s()}, w.b${F.id()} ? ${F.s()} + ${F.f()} : ${F.s()}, ${F.f()})`)
+form('nest-cond-in-tpl', { ops: ['tpl', '+'] }, F => `\`\${${F.f()}}\${w.b${F.id()} ? ${F.s()} + ${F.f()} : ${F.s()}}\${${F.f()}}\``)
+form('nest-destructure-default-in-plus', { ops: ['+'] }, F => `${F.f()} + (({ k = ${F.s()} + ${F.f()} }) => k)({}) + ${F.f()}`)
+form('nest-for-head-iife-in-plus', { ops: ['+'] }, F => `${F.f()} + (() => { let r = ''; for (let i = ${F.s()} + ${F.f()}; r.length < 1; r += ${F.s()} + ${F.f()}) { r += i } return r })()`)
+form('nest-accessor-target', { ops: ['+='] }, F => `({ get p() { return ${F.s()} }, set p(v) { w.out(v) } }).p += ${F.f()}`)
 form('minus-only', { ops: [], instr: false }, F => `w.i${F.id()} - w.i${F.id()}`)
 // +=
 form('addassign-ident-lit', { ops: ['+='] }, F => `${F.loc()} += ${F.lit()}`)
@@ -149,10 +163,10 @@ form('opt-invocation-mixed-spread-args', { ops: ['concat'] }, F => `w.o${F.id()}
 form('opt-invocation-computed-callee', { ops: ['trim'] }, F => `w.o${F.id()}[w.k${F.id()}]?.(${F.s()}).trim()`)
 form('opt-ident-invocation', { ops: ['trim'] }, F => { const a = F.loc('w.f' + F.id()); return `${a}?.(${F.s()}, ...w.it${F.id()}).trim()` })
 form('opt-literal-base-string', { ops: ['substring'], instr: false }, F => `'⟦L${F.id()}⟧'?.substring(${F.loc('w.i' + F.id())})`)
-form('opt-literal-base-number', { ops: ['trim'], nodemand: true }, F => `1?.toString().trim().concat(${F.s()})`)
-form('opt-literal-base-regex', { ops: ['substring'], nodemand: true }, F => `/x${F.id()}/?.source.substring(1).concat(${F.f()})`)
-form('opt-literal-invocation', { ops: ['trim'], nodemand: true }, F => `'⟦L${F.id()}⟧'.concat?.(${F.s()}).trim()`)
-form('opt-null-literal-base', { ops: ['trim'], nodemand: true }, F => `null?.trim().concat(${F.f()})`)
+form('opt-literal-base-number', { kf: 'D26', ops: ['trim'], nodemand: true }, F => `1?.toString().trim().concat(${F.s()})`)
+form('opt-literal-base-regex', { kf: 'D26', ops: ['substring'], nodemand: true }, F => `/x${F.id()}/?.source.substring(1).concat(${F.f()})`)
+form('opt-literal-invocation', { kf: 'D26', ops: ['trim'], nodemand: true }, F => `'⟦L${F.id()}⟧'.concat?.(${F.s()}).trim()`)
+form('opt-null-literal-base', { kf: 'D26', ops: ['trim'], nodemand: true }, F => `null?.trim().concat(${F.f()})`)
 form('opt-this-base', { ops: ['trim'], nodemand: true, needs: 'this' }, F => `this?.s${F.id()}.trim()`)
 form('opt-unlisted', { ops: [], instr: false }, F => `${F.loc()}?.charAt(0)`)
 form('opt-arg-opt', { ops: ['concat', 'trim'], kf: 'D17' }, F => `${F.loc()}?.concat(${F.loc()}?.trim())`)
